@@ -215,7 +215,8 @@ pub fn gen_props(rng: &mut Rng) -> Vec<PropSpec> {
         .map(|i| {
             let vlen = if big { *rng.pick(&[500usize, 700, 900]) } else { *[4usize, 20, 60].get(i % 3).unwrap() };
             PropSpec {
-                name: if i == 0 { "textures".into() } else { format!("p{i}") },
+                // (a name may occur twice, e.g. a signed and an unsigned `textures` entry: the list is recorded as it was vouched for)
+                name: if i == 0 || (i == 2 && i % 2 == 0 && vlen % 3 != 1) { "textures".into() } else { format!("p{i}") },
                 value: crate::world::hex(&rng.bytes(vlen)),
                 signature: if rng.chance(1, 2) { Some(crate::world::hex(&rng.bytes(if big { 342 } else { 16 }))) } else { None },
             }
